@@ -316,6 +316,11 @@ def state_lr_catalogue():
     # (the helper's name sorts after E: E is the leader, as the reference assumes; with a helper that sorts first the
     # helper would grow the seed and the blocks of discarded attempts would observe other intermediate stores)
     g("helper2", [ref("Zk"), seq(inc(), lit("b"))], extra=[rule("Zk", act(seq(label("l", ref("E")), lit("a"), inc()), b_rec("step")))])
+    out.append(grammar("stlr_prefix", [
+        rule("S", act(seq(label("v", choice(seq(lit("a"), inc(), ref("E"), lit("x")), seq(cls(ranges=[("a", "b")]), inc(), inc(), ref("E"), lit("y")))),
+                          label("p", choice(act(obs(0), b_const("even")), act(obs(1), b_const("odd"))))), b_rec("s"))),
+        # (E has no traced block: a leader answered from its memo entry does not run pure actions again, which C05 does not ask for)
+        rule("E", choice(act(seq(ref("E"), lit("+"), cls(ranges=[("0", "1")])), b_text()), cls(ranges=[("0", "1")])), lr=True)], needs_lr=True))
     # finding F21: the second evaluation of a left-recursive rule at one offset is answered from the leader's memo entry
     g("twice", [add(inc(), lit("a")), lit("b")], twice=True)
     return out
@@ -382,6 +387,10 @@ def throw_catalogue():
                  rule("ErrTail", act(seq(label("g", plus(cls(chars=",", inv=True))), label("t", ref("Tail"))), rec("skipped")))])
     g("resume2", [rule("S", act(label("x", recover(star(seq(lit("a"), choice(lit("b"), throw("l1")))), ["l1"],
                                                    act(seq(lit("c"), opt(choice(lit("b"), throw("l1")))), rec("again")))), rec("s")))])
+    # escalation: the guarded expression of the inner operator throws m; the handler for m sits outside and its
+    # recovery expression throws l - which the inner operator lists although no throw of l is written inside it
+    g("escalate", [rule("S", act(label("x", recover(recover(seq(lit("a"), choice(lit("b"), throw("l2"))), ["l1"], act(lit("r"), rec("inner"))),
+                                                    ["l2"], seq(lit("g"), choice(lit("b"), throw("l1"))))), rec("s")))])
     # throw under choice alternatives with state of labels
     g("labels", [rule("S", act(seq(label("x", lit("a")), label("y", recover(choice(lit("b"), throw("l1")), ["l1"], act(label("z", any_()), rec("r"))))), rec("s")))])
     return out
@@ -616,6 +625,10 @@ def opt_catalogue():
         k += 1
         g("notany%d" % k, [rule("S", top(seq(star(seq(not_(json_copy(t)), any_())), opt(lit("b")))))])
         g("notanyr%d" % k, [rule("S", top(seq(star(seq(not_(ref("Stop")), any_())), opt(ref("Stop"))))), rule("Stop", json_copy(t))])
+    # adjacent literals with different i flags around a letter whose case mapping is one-way (sharp s)
+    g("sharps1", [rule("S", top(seq(lit("a", i=True), lit("\u00df"), opt(lit("e", i=True)))))], tags=[])
+    g("sharps2", [rule("S", top(seq(lit("\u00df", i=True), lit("x"))))])
+    out[-1]["alphabet_extra"] = out[-2]["alphabet_extra"] = "\u1e9e"  # capital sharp s: lower-cases to the small one, which has no upper case
     # a diamond of references: B becomes inlinable only after its users A1 and A2 were visited; A1 also uses A2 and
     # has a literal between the two references (merge order)
     g("diamond", [rule("S", top(plus(ref("A1")))), rule("A1", choice(ref("A2"), lit("x"), ref("B"))), rule("A2", choice(seq(lit("-"), ref("B")), lit("y"))),
